@@ -93,6 +93,7 @@ class C05(Check):
         "delays per task (observed completion orders recorded). Public results (ids -> metadata -> record bytes; "
         "trees.pkl/binning bytes; all count arrays, sample(); histogram data and sample rows) must be bit-identical. "
         "non-trivial = the schedule differs from submission order; distinct = (entry point set, schedule)"
+        ' Further stages: all Mapping views, separation weighting on Mpc scales, a stock-named cosmology with other parameters, relocated sessions (relative paths + chdir), a 140 000-record patch, 300 patches, forced rebuild with another leaf size; every computation in forked children.'
     )
     assumptions = [
         "FakePool is a faithful double of imap_unordered's contract (any order, each result once)",
